@@ -3,10 +3,14 @@
 package server
 
 import (
-	"sync"
 	"bytes"
+	"context"
 	"fmt"
+	"os"
 	"reflect"
+	"strconv"
+	"strings"
+	"sync"
 	"testing"
 	"time"
 
@@ -14,6 +18,7 @@ import (
 	client "github.com/liftbridge-io/liftbridge-api/v2/go"
 	"github.com/nats-io/nats.go"
 
+	"github.com/liftbridge-io/liftbridge/server/commitlog"
 	"github.com/liftbridge-io/liftbridge/server/vfutil"
 	"pgregory.net/rapid"
 )
@@ -52,6 +57,30 @@ var c14MsgPayloads = rapid.Custom(func(t *rapid.T) []byte {
 })
 
 func genC14d(t *rapid.T) c14dCase {
+	if rapid.IntRange(0, 40).Draw(t, "header-limits?") == 0 {
+		// a well-formed publish envelope at the limits of what the commit log's
+		// message format can hold: header keys around 32 KiB, many headers
+		m := &client.Message{Value: []byte("v"), Headers: map[string][]byte{}}
+		switch rapid.IntRange(0, 3).Draw(t, "limit") {
+		case 0, 1:
+			n := rapid.SampledFrom([]int{32766, 32767, 32768, 40000, 65535, 65536, 70000}).Draw(t, "keylen")
+			m.Headers[strings.Repeat("k", n)] = []byte("x")
+		case 2:
+			n := rapid.SampledFrom([]int{32765, 32766, 32767, 32768, 65533, 65534, 65536}).Draw(t, "nheaders")
+			for i := 0; i < n; i++ {
+				m.Headers[strconv.Itoa(i)] = nil
+			}
+		case 3:
+			m.Headers["big"] = make([]byte, rapid.SampledFrom([]int{65535, 65536, 1 << 20}).Draw(t, "vallen"))
+		}
+		b, err := pb.Marshal(m)
+		if err != nil {
+			panic(err)
+		}
+		env := append([]byte{}, vfutil.EnvelopeMagic...)
+		env = append(env, 0, 8, 0, 0)
+		return c14dCase{Data: append(env, b...), Subject: "foo"}
+	}
 	return c14dCase{Data: vfutil.GenEnvelopeBytes(t, c14MsgPayloads), Subject: "foo", Reply: rapid.SampledFrom([]string{"", "_INBOX.x"}).Draw(t, "reply")}
 }
 
@@ -64,6 +93,17 @@ func c14Predict(data []byte) (isEnvelope bool, msg *client.Message) {
 	m := new(client.Message)
 	if err := pb.Unmarshal(payload, m); err != nil {
 		return false, nil
+	}
+	// an envelope the commit log's message format cannot hold (a header key
+	// above 32767 bytes, more than 65533 headers next to subject and reply) is
+	// stored verbatim
+	if len(m.Headers) > 65533 {
+		return false, nil
+	}
+	for k := range m.Headers {
+		if len(k) > 32767 {
+			return false, nil
+		}
 	}
 	return true, m
 }
@@ -98,6 +138,62 @@ func runC14d(c c14dCase, o *vfutil.Obs) *vfutil.Failure {
 		if !bytes.Equal(got.Headers[k], v) {
 			return vfutil.Failf("C14/envelope-headers", "header %q = %q, want %q", k, got.Headers[k], v)
 		}
+	}
+	return c14dStore(got, o)
+}
+
+// c14dStore does what the leader's message loop does next with the message - it
+// appends it to a commit log - and reads it back the way a subscription does:
+// no payload may make either step panic (the panic is caught by the harness
+// and reported), and what is read back is what was decoded.
+var (
+	c14dLog   commitlog.CommitLog
+	c14dCount int
+)
+
+func c14dStore(m *commitlog.Message, o *vfutil.Obs) *vfutil.Failure {
+	if c14dLog == nil || c14dCount%2000 == 0 {
+		if c14dLog != nil {
+			c14dLog.Delete()
+		}
+		dir, _ := os.MkdirTemp(scratchRoot(), "c14d")
+		l, err := commitlog.New(commitlog.Options{Path: dir, MaxSegmentBytes: 64 << 20})
+		if err != nil {
+			return vfutil.Failf("harness/commitlog", "%v", err)
+		}
+		c14dLog = l
+	}
+	c14dCount++
+	m.Timestamp = int64(c14dCount)
+	offs, err := c14dLog.Append([]*commitlog.Message{m})
+	if err != nil {
+		return vfutil.Failf("C14/decoded-message-cannot-be-stored", "Append: %v", err)
+	}
+	c14dLog.SetHighWatermark(offs[0])
+	r, err := c14dLog.NewReader(offs[0], false)
+	if err != nil {
+		return vfutil.Failf("C14/stored-message-cannot-be-read", "NewReader: %v", err)
+	}
+	ctx, cancel := context.WithTimeout(context.Background(), 20*time.Second)
+	defer cancel()
+	sm, off, _, _, err := r.ReadMessage(ctx, make([]byte, 28))
+	if err != nil || off != offs[0] {
+		return vfutil.Failf("C14/stored-message-cannot-be-read", "ReadMessage: offset %d (want %d), %v", off, offs[0], err)
+	}
+	if !bytes.Equal(sm.Key(), m.Key) || !bytes.Equal(sm.Value(), m.Value) {
+		return vfutil.Failf("C14/stored-message-differs", "stored key %q value % x, decoded key %q value % x", sm.Key(), clipB(sm.Value()), m.Key, clipB(m.Value))
+	}
+	hs := sm.Headers()
+	if len(hs) != len(m.Headers) {
+		return vfutil.Failf("C14/stored-message-differs/header-count", "%d headers stored, %d decoded", len(hs), len(m.Headers))
+	}
+	for k, v := range m.Headers {
+		if sv, ok := hs[k]; !ok || !bytes.Equal(sv, v) {
+			return vfutil.Failf("C14/stored-message-differs/header", "header %q: stored %q (present %v), decoded %q", clipB([]byte(k)), clipB(sv), ok, clipB(v))
+		}
+	}
+	if len(m.Headers) > 2 {
+		o.Label("stored-with-headers")
 	}
 	return nil
 }
